@@ -199,6 +199,20 @@ pub fn big_cases(thorough: bool) -> Vec<BigCase> {
             }
         }
     }
+    // scores that saturate the 16-bit range together with the prefix preference: a run of n equal
+    // characters starting at offset 0..=7 (the prefix bonus is positive for small offsets only)
+    for n in [2300usize, 2400, 2500, 2560, 2600, 2740, 3300, 4096, 4200, 6000] {
+        for k in 0..=7usize {
+            for paths in [false, true] {
+                let c = Cfg { ignore_case: false, normalize: true, paths, prefer_prefix: true };
+                let mut hay: Vec<char> = vec![' '; k];
+                hay.extend(std::iter::repeat('a').take(n));
+                out.push(BigCase { family: "long-needle/prefix-offset", cfg: c, hay: hay.clone(), needle: vec!['a'; n] });
+                hay.push('b');
+                out.push(BigCase { family: "long-needle/prefix-offset-tail", cfg: c, hay, needle: vec!['a'; n] });
+            }
+        }
+    }
     for n in needle_lengths(thorough) {
         let c = cfg(false, false);
         let run: Vec<char> = vec!['a'; n];
